@@ -125,6 +125,14 @@ const kitchenYAML = `types:
     - name: gitems
       type:
         namedType: itemlist
+    - name: rules
+      type:
+        list:
+          elementType:
+            namedType: rule
+          elementRelationship: associative
+          keys:
+          - name
     - name: ded
       type:
         namedType: __untyped_deduced_
@@ -183,6 +191,16 @@ const kitchenYAML = `types:
     - name: nm
       type:
         scalar: string
+- name: rule
+  map:
+    fields:
+    - name: name
+      type:
+        scalar: string
+    - name: vv
+      type:
+        scalar: numeric
+    elementRelationship: atomic
 - name: itemlist
   list:
     elementType:
@@ -222,6 +240,14 @@ const smallYAML = `types:
         map:
           elementType:
             namedType: st
+    - name: rules
+      type:
+        list:
+          elementType:
+            namedType: rule
+          elementRelationship: associative
+          keys:
+          - name
 - name: st
   map:
     fields:
@@ -243,6 +269,16 @@ const smallYAML = `types:
     - name: st
       type:
         namedType: st
+- name: rule
+  map:
+    fields:
+    - name: name
+      type:
+        scalar: string
+    - name: vv
+      type:
+        scalar: numeric
+    elementRelationship: atomic
 `
 
 const deducedYAML = `types:
